@@ -200,6 +200,49 @@ def judge(ctx, kt, onchain, literal, ops, mode):
         ctx.samples.append({'case': case, 'lazy_diff': lazy_diff, 'node_lookups': len(lookups)})
 
 
+def judge_onchain_hashes(ctx):
+    """Ground truth from mainnet: the lazy storage diffs recorded with the repository's contract tests carry (key, key_hash)
+    as the chain computed them. The same key inserted through the interpreter must be reported under the same hash."""
+    from pytezos.michelson.repl import Interpreter
+    from rv.gen import corpus as C
+    for j, (kt, key, recorded, vt, val) in enumerate(C.onchain_key_hashes()):
+        if not ctx.mine(j):
+            continue
+        case = {'onchain_key_type': kt, 'key': key, 'recorded_key_hash': recorded}
+        ctx.case(('onchain', repr(kt), repr(key)), nontrivial=True)
+        ctx.count('mainnet_key_hashes')
+        try:
+            t = T.from_micheline(C.strip(kt))
+            if P.key_hash_of(P.parse(key, t), t) != recorded and not is_wide_comb(t):
+                ctx.inconc('the model disagrees with a key hash recorded on mainnet: %r %r' % (kt, key))
+                continue
+        except Exception:
+            ctx.count('mainnet_keys_not_readable_by_model')
+            continue
+        sk = C.strip(kt)
+        script = [{'prim': 'parameter', 'args': [{'prim': 'unit'}]}, {'prim': 'storage', 'args': [{'prim': 'big_map', 'args': [sk, {'prim': 'nat'}]}]},
+                  {'prim': 'code', 'args': [[{'prim': 'CDR'}, {'prim': 'PUSH', 'args': [{'prim': 'nat'}, {'int': '1'}]}, {'prim': 'SOME'},
+                                              {'prim': 'PUSH', 'args': [sk, key]}, {'prim': 'UPDATE'}, {'prim': 'NIL', 'args': [{'prim': 'operation'}]}, {'prim': 'PAIR'}]]}]
+        try:
+            ops, storage, lazy, stdout, err = Interpreter.run_code(parameter={'prim': 'Unit'}, storage=[], script=script)
+        except Exception as e:
+            ctx.violation('C15|run_code-raises|onchain-key', repr(e)[:200], case)
+            continue
+        if err is not None:
+            ctx.violation('C15|run_code-fails|onchain-key', L_errtext(err), case)
+            continue
+        got = [u.get('key_hash') for d in lazy for u in (d.get('diff') or {}).get('updates', [])]
+        ctx.count('diff_entries', len(got))
+        if got != [recorded]:
+            ctx.violation('C15|diff-key-hash|differs-from-the-hash-mainnet-recorded|' + t[0], 'key %r of type %s: %r, mainnet recorded %s' % (key, T.show(t), got, recorded), case)
+        else:
+            ctx.count('mainnet_key_hashes_reproduced')
+
+
+def L_errtext(e):
+    return ' / '.join(str(a)[:80] for a in getattr(e, 'args', [e]))[:300]
+
+
 def last_op_kind(error, ops):
     a = [str(x) for x in getattr(error, 'args', [])]
     for p in ('GET_AND_UPDATE', 'UPDATE', 'GET', 'MEM', 'END', 'BEGIN'):
@@ -225,7 +268,8 @@ def run(ctx):
                 'of the keys between on-chain content and none, for big maps referenced by id (entries served by a simulated node), '
                 'literal big maps and empty ones; random sequences <= 25 over 4 keys for 8 key types (nat, string, pair, or, option, '
                 'nested pair, bytes, address); observations, lazy diff applied to the on-chain content, key hashes and node lookups '
-                'checked; for a comb key of 4 leaves only the consistency of lookup hash and diff hash is judged (layout not fixed by the property)' % maxlen)
+                'checked; plus the (key, key_hash) pairs mainnet recorded in the lazy storage diffs shipped with the repository tests, and the lazy '
+                'diffs of the recorded calls of those contracts vs the reference interpreter; for a comb key of 4 leaves only the consistency of lookup hash and diff hash is judged (layout not fixed by the property)' % maxlen)
     ctx.exhaustive = True
     i = 0
     kt, keys = KEYSETS[0]
@@ -251,6 +295,13 @@ def run(ctx):
         ops = [rng.choice(alphabet(keys)) for _ in range(rng.randint(1, 25))]
         mode = rng.choice(['onchain', 'onchain', 'literal'])
         judge(ctx, kt, content if mode == 'onchain' else [], content if mode == 'literal' else [], ops, mode)
+    judge_onchain_hashes(ctx)
+    # real contracts: the lazy diff of every finished recorded call vs the reference interpreter's big maps (only the
+    # lazy-diff verdicts are taken here; the lock-step verdicts of the same runs belong to C01)
+    from rv.checks import _real as RC
+    RC.workload(ctx, 'C15', 'values', only='lazy-diff')
+    ctx.require('mainnet_key_hashes', 10)
+    ctx.require('real_contract_big_maps_compared_with_lazy_diff', 10)
     ctx.require('histories', 200)
     ctx.require('observations_checked', 200)
     ctx.require('diffs_checked' if not ctx.violations else 'histories', 100)
@@ -259,6 +310,11 @@ def run(ctx):
 
 
 def replay(ctx, case):
+    if 'onchain_key_type' in case:
+        return judge_onchain_hashes(ctx)
+    if case.get('label') == 'real-contract':
+        from rv.checks import _real as RC
+        return RC.replay(ctx, 'C15', case, 'values', only='lazy-diff')
     kt = T.from_micheline(case['key_type'])
     onchain = [(P.parse(k, kt), v) for k, v in case['onchain']]
     literal = [(P.parse(k, kt), v) for k, v in case['literal']]
